@@ -466,6 +466,13 @@ class Interp:
             pass
 
     # --- helpers ---------------------------------------------------------------------------------------------------
+    def resolve(self, segs):
+        segs = list(segs)
+        uses = self.frame.get('uses') if self.frames else None
+        if uses and segs and segs[0] in uses:
+            segs = uses[segs[0]].split('::') + segs[1:]
+        return self.c.resolve(self.frame['mod'], segs)
+
     def fresh(self, prefix):
         self.next_id += 1
         return f'{prefix}{self.next_id}'
@@ -528,6 +535,11 @@ class Interp:
             self.bind(p['pat'], a, env)
         fr['nconds0'] = len(fr['conds'])
         val = self.block(f['body'], env)
+        if val[0] == 'acc':
+            saved = fr['conds']
+            fr['conds'] = fr['conds'][:fr['nconds0']]
+            val = self.acc_view(val)
+            fr['conds'] = saved
         self.frames.pop()
         self.stack.pop()
         if fr['returns']:
@@ -561,7 +573,7 @@ class Interp:
             return self.neg(scrut[1])
         if k == 'PIdent':
             if pat['sub'] is None and self.is_variant_ident(pat['name']) and pat['name'] not in env:
-                return ('is', scrut, self.c.resolve(self.frame['mod'], [pat['name']]))
+                return ('is', scrut, self.resolve([pat['name']]))
             env[pat['name']] = scrut
             if pat['sub'] is not None:
                 return self.bind(pat['sub'], scrut, env)
@@ -569,9 +581,9 @@ class Interp:
         if k in ('PWild', 'PRest'):
             return TRUE
         if k == 'PPath':
-            return ('is', scrut, self.c.resolve(self.frame['mod'], pat['path']['segs']))
+            return ('is', scrut, self.resolve(pat['path']['segs']))
         if k == 'PTupleStruct':
-            v = self.c.resolve(self.frame['mod'], pat['path']['segs'])
+            v = self.resolve(pat['path']['segs'])
             conds = [('is', scrut, v)]
             if v in ('Some', 'std::option::Option::Some', 'Option::Some') and scrut[0] == 'opt':
                 conds = [scrut[1]]
@@ -586,7 +598,7 @@ class Interp:
                     conds.append(c)
             return conds[0] if len(conds) == 1 else ('and', conds)
         if k == 'PStruct':
-            v = self.c.resolve(self.frame['mod'], pat['path']['segs'])
+            v = self.resolve(pat['path']['segs'])
             conds = [('is', scrut, v)]
             for f in pat['fields']:
                 c = self.bind(f['pat'], ('vf', scrut, v, f['name']), env)
@@ -667,6 +679,11 @@ class Interp:
         env = env.child()
         val = ('tuple', [])
         stmts = b['stmts']
+        for st in stmts:
+            if st['k'] == 'ItemStmt' and st['item'].get('k') == 'Use':
+                for u in st['item']['uses']:
+                    if u['alias'] != '*':
+                        self.frame.setdefault('uses', {})[u['alias']] = u['path']
         for i, st in enumerate(stmts):
             k = st['k']
             if k == 'Let':
@@ -692,7 +709,11 @@ class Interp:
                     val = v
                     break   # the rest of the block is unreachable
             elif k == 'ItemStmt':
-                pass
+                it = st['item']
+                if it.get('k') == 'Use':
+                    for u in it['uses']:
+                        if u['alias'] != '*':
+                            self.frame.setdefault('uses', {})[u['alias']] = u['path']
         return val
 
     def with_cond(self, c, fn):
@@ -716,7 +737,7 @@ class Interp:
         segs = e['path']['segs']
         if len(segs) == 1 and segs[0] in env:
             return env[segs[0]]
-        p = self.c.resolve(self.frame['mod'], segs)
+        p = self.resolve(segs)
         if p in ('None', 'std::option::Option::None', 'Option::None'):
             return ('opt', FALSE, ('tuple', []))
         return ('path', p)
@@ -803,7 +824,7 @@ class Interp:
         return ('range', self.expr(e['from'], env) if e['from'] else None, self.expr(e['to'], env) if e['to'] else None, e['limits'])
 
     def e_StructLit(self, e, env, **kw):
-        p = self.c.resolve(self.frame['mod'], e['path']['segs'])
+        p = self.resolve(e['path']['segs'])
         return ('struct', p, {f['name']: self.expr(f['expr'], env) for f in e['fields']})
 
     def e_Block(self, e, env, **kw):
@@ -950,7 +971,12 @@ class Interp:
                 if st['init'] is None:
                     continue
                 v = self.expr(st['init'], env, let_name=st['pat'].get('name') if st['pat']['k'] == 'PIdent' else None, let_mut=st['pat'].get('mut', False))
-                self.bind(st['pat'], v, env)
+                c = self.bind(st['pat'], v, env)
+                if st.get('else') is not None and c != TRUE:
+                    self.frame['conds'].append(self.neg(c))
+                    self.expr(st['else'], env.child())
+                    self.frame['conds'].pop()
+                    self.frame['conds'].append(c)
             elif k == 'ExprStmt':
                 v = self.expr(st['expr'], env, stmt=True)
                 if v[0] == 'diverge':
@@ -1136,7 +1162,7 @@ class Interp:
                 if callee[0] == 'closure':
                     return self.apply(callee, args)
                 return ('callv', callee, args)
-            p = self.c.resolve(self.frame['mod'], segs)
+            p = self.resolve(segs)
             if p in self.c.fns:
                 self.inline_calls.append((self.frame['callee'], p, e['line']))
                 return self.call_fn(p, args, line=e['line'])
